@@ -9,7 +9,7 @@ import os, subprocess, itertools, json
 from lib.common import Ctx, Build, Scratch, InfraError, REPO, pmap
 from lib import emusrv, catalog, pv
 from lib.emusrv import Ev, Fin, i32, i64, u32
-from lib.explore import ServerPool, Explorer, Ref, short_hist, binding_cases
+from lib.explore import ServerPool, Explorer, Ref, short_hist, binding_cases, bind_shallow
 from checks.c08 import PrefixPool
 
 PAR, RES, PAUSE, RELAX = 1, 2, 4, 8
@@ -390,6 +390,7 @@ def e2e_walk(ctx, build, scratch, exe, cat, m, tier):
                      prefix + [Ev(t0, T + "x", pay(1)), Ev(sidx[1], T + "x", pay(1))],
                      prefix + [Ev(t0, T + "x", pay(1)), Ev(t0, T + "x", pay(2))]]
             binding_cases(ctx, build, system, pool, cases, model, emu_flags=())
+            bind_shallow(ctx, build, system, pool, ex, model + "-shallow", emu_flags=(), limit=(150 if tier == "quick" else 1000))
         ctx.sample({"model": model, "states": st["states"], "probes": st["probes"],
                     "example": short_hist(prefix[-3:] + [Ev(sidx[0], m + "Tx", u32(1, 0) if m == "V" else u32(1))])})
     finally:
